@@ -419,7 +419,7 @@ theorem wf_gen (cfg : Cfg) : (t : Ty) → wfTy t = true → wfKws (gen cfg t) = 
     simp only [wfKws_append, wfKws_cons, wfKws_nil, Bool.and_true]
     rw [wf_reqSeg _ _ _ (by rw [← fieldNames_eq]; exact h.1.1.2), wf_depSeg _ _ _ (wfFields_deps fields h.1.2),
       wf_addSeg _ _ ihA, wf_classAnnotations]
-    simp [wfEntry, wfSimple, wfType, primitiveNames, schemaKeywords, schemaArrayKeywords, schemaMapKeywords, ihF]
+    simp [wfEntry, wfSimple, wfType, typeNonEmpty, primitiveNames, schemaKeywords, schemaArrayKeywords, schemaMapKeywords, ihF]
 theorem wf_genList (cfg : Cfg) : (ts : List Ty) → wfTys ts = true → wfList (genList cfg ts) = true
   | [], _ => by rw [genList.eq_def]; exact wfList_nil
   | t :: rest, h => by
@@ -1137,6 +1137,12 @@ theorem C13_deprecated_published_as_bool (r : RawField) :
 meta-data vocabulary) wants a boolean -/
 theorem C13_wf_rejects_string_deprecated :
     wf (.obj [("type", .str "integer"), ("deprecated", .str "email")]) = false := by decide
+
+/-- `type` arrays: the restricted metaschema (like 2020-12) wants at least one element and no repetition -/
+theorem C13_wf_rejects_bad_type_arrays :
+    wf (.obj [("type", .arr [.str "string", .str "string", .str "integer"])]) = false ∧
+    wf (.obj [("type", .arr [])]) = false ∧
+    wf (.obj [("type", .arr [.str "string", .str "integer"])]) = true := by decide
 
 theorem jsUnsafe_zero (e : Nat) : jsUnsafe ⟨0, e⟩ = false := by
   have hp : (0 : Int) < 10 ^ e := Int.pow_pos (by decide)
